@@ -161,5 +161,9 @@ def run(chk, replay=None):
         if ci != want:
             chk.violation({"class": "delivery", "what": "%s: expected %s got %s" % (kind, want, ci)},
                           dict(base, expected=want, broken="a witness expression does not evaluate to the value supplied under its name (C05_delivery / C05_witness_expression + C01)"))
+    # partially inspected witnesses: the value that satisfy puts into the node must be of the node's (smaller) type — checked
+    # through the encoding round trip and the run against the source semantics
+    pw = corelib.check_terms(chk, corelib.partial_witness_programs(chk, 60 if quick else 1500, "pw5"), dbgs=(0,))
+    corelib.run_matrix(chk, pw, dbgs=(0,), max_assign=12 if quick else None)
     chk.extra["rule"] = ("programs with 0..8 witnesses of random observable types, each compared leaf by leaf with a literal; maps: exact, permuted, extra names, one name missing (documented: zero value), "
                          "one value changed, one value replaced by a value of a layout-equal but different type, one by a value of a different type, and random combinations of these with 1..12 undeclared names; satisfy Ok/Err vs the model, execution vs the expected delivery")
